@@ -155,4 +155,12 @@ theorem fanoutStmts_eq : Nsq.Gen.Codec.fanoutStmts = [
   "if chanMsg.deferred != 0",
   "assign err := channel.PutMessage(chanMsg)"] := by rfl
 
+/-- `doPUB` body read = `Model.Wire.httpPub` -/
+theorem doPUBReadStmts_eq : Nsq.Gen.Codec.doPUBReadStmts = [
+  "if req.ContentLength > s.nsqd.getOpts().MaxMsgSize",
+  "assign readMax := s.nsqd.getOpts().MaxMsgSize + 1",
+  "assign body, err := io.ReadAll(io.LimitReader(req.Body, readMax))",
+  "if int64(len(body)) == readMax",
+  "if len(body) == 0"] := by rfl
+
 end Nsq.Tie.Wire
